@@ -415,8 +415,8 @@ pub fn run(ctx: &mut Ctx) -> Result<(), Violation> {
     });
     ctx.stage("ite-triples-2var", true, r)?;
 
-    if ctx.tier == Tier::Thorough {
-        let l3 = layouts3();
+    {
+        let l3: Vec<(Vec<usize>, Vec<usize>)> = if ctx.tier == Tier::Quick { layouts3().into_iter().skip(1).take(1).collect() } else { layouts3() };
         let n = 256u64 * 256 * l3.len() as u64;
         let r = par_exhaustive(ctx, n, |i, st| {
             let mut i = i as usize;
@@ -440,7 +440,7 @@ pub fn run(ctx: &mut Ctx) -> Result<(), Violation> {
         ctx.stage("pairs-3var-all-ops-layouts", true, r)?;
     }
 
-    let cases = ctx.tier.pick(20_000, 600_000);
+    let cases = ctx.tier.pick(100_000, 2_000_000);
     let r = par_random(ctx, "random-operands", cases, 120, |tape, st| {
         let mut t = Tape::new(tape);
         let c = gen_case(&mut t);
